@@ -73,8 +73,16 @@ TARGETS = {
         header="From HS Require Import Base.Prelude Base.PyLib.",
         classes=[
             dict(file="happysimulator/core/event.py", cls="Event",
-                 fields={"time": "I", "_sort_index": "Z"},
+                 fields={"time": "I", "_sort_index": "Z", "daemon": "B"},
                  methods={"__lt__": dict(params={"other": "Event"}, pure=True)}),
+            # EventHeap with tracing off (the recorder branch is pruned: _tracing_enabled is declared false; C04's
+            # check compares traced and untraced runs); push() (list-or-event dispatch) and __init__ are not translated
+            dict(file="happysimulator/core/event_heap.py", cls="EventHeap",
+                 fields={"_primary_event_count": "Z", "_current_time": "I", "_heap": "list Event", "_max_sort_index": "Z"},
+                 heaps=["_heap"], consts={"_tracing_enabled": ("false", "B")},
+                 methods={"set_current_time": dict(params={"time": "I"}), "_push_single": dict(params={"event": "Event"}),
+                          "pop": dict(ret="Event"), "peek": dict(pure=True, ret="Event"), "has_events": dict(pure=True),
+                          "has_primary_events": dict(pure=True), "size": dict(pure=True)}),
         ],
     ),
     "RaftLogGen": dict(
